@@ -115,10 +115,14 @@ pub fn get_rules() -> Vec<Arc<Rule>> {
 pub fn clear_rules() {
     CURRENT_RULES.lock().unwrap().clear();
     BREAKER_RULES.write().unwrap().clear();
-    BREAKER_MAP.write().unwrap().clear();
+    // the breakers are dropped (which notifies the listeners) after the map lock has been released
+    let _retired = std::mem::take(&mut *BREAKER_MAP.write().unwrap());
 }
 
 pub fn append_rule(rule: Arc<Rule>) -> bool {
+    // declared before the lock guards, so dropped after them: dropping a breaker notifies the listeners,
+    // which must be free to read the manager
+    let _retired: Option<Vec<Arc<dyn CircuitBreakerTrait>>>;
     let mut global_rule_map = CURRENT_RULES.lock().unwrap();
     if global_rule_map
         .get(&rule.resource)
@@ -152,11 +156,11 @@ pub fn append_rule(rule: Arc<Rule>) -> bool {
             .get_mut(&rule.resource)
             .unwrap_or(&mut placeholder),
     );
-    if new_cbs_of_res.is_empty() {
-        global_breaker_map.remove(&rule.resource);
+    _retired = if new_cbs_of_res.is_empty() {
+        global_breaker_map.remove(&rule.resource)
     } else {
-        global_breaker_map.insert(rule.resource.clone(), new_cbs_of_res);
-    }
+        global_breaker_map.insert(rule.resource.clone(), new_cbs_of_res)
+    };
     true
 }
 
@@ -232,10 +236,12 @@ pub fn load_rules(rules: Vec<Arc<Rule>>) -> bool {
     }
 
     *BREAKER_RULES.write().unwrap() = valid_rules_map;
-    *global_breaker_map = valid_breaker_map;
+    let retired = std::mem::replace(&mut *global_breaker_map, valid_breaker_map);
     *global_rule_map = rule_map;
     drop(global_rule_map);
     drop(global_breaker_map);
+    // dropping a breaker notifies the listeners: only now, with the manager locks released
+    drop(retired);
     logging::debug!(
         "[CircuitBreakerTrait load_rules] Time statistic(ns) for updating flow rule, time cost {}",
         utils::curr_time_nanos() - start
@@ -253,12 +259,14 @@ pub fn load_rules_of_resource(res: &String, rules: Vec<Arc<Rule>>) -> Result<boo
         return Err(Error::msg("empty resource"));
     }
     let rules: HashSet<_> = rules.into_iter().collect();
+    // declared before the lock guards, so dropped after them (dropping a breaker notifies the listeners)
+    let _retired: Option<Vec<Arc<dyn CircuitBreakerTrait>>>;
     let mut global_rule_map = CURRENT_RULES.lock().unwrap();
     let mut global_breaker_map = BREAKER_MAP.write().unwrap();
     // clear resource rules
     if rules.is_empty() {
         global_rule_map.remove(res);
-        global_breaker_map.remove(res);
+        _retired = global_breaker_map.remove(res);
         BREAKER_RULES.write().unwrap().remove(res);
         logging::info!(
             "[CircuitBreakerTrait] clear resource level rules, resource {}",
@@ -292,10 +300,10 @@ pub fn load_rules_of_resource(res: &String, rules: Vec<Arc<Rule>>) -> Result<boo
     let new_res_tcs = build_resource_circuit_breaker(res, &valid_res_rules, old_res_tcs);
 
     if new_res_tcs.is_empty() {
-        global_breaker_map.remove(res);
+        _retired = global_breaker_map.remove(res);
         BREAKER_RULES.write().unwrap().remove(res);
     } else {
-        global_breaker_map.insert(res.clone(), new_res_tcs);
+        _retired = global_breaker_map.insert(res.clone(), new_res_tcs);
         BREAKER_RULES
             .write()
             .unwrap()
@@ -378,7 +386,8 @@ pub fn remove_circuit_breaker_generator(s: &BreakerStrategy) -> Result<()> {
 pub fn clear_rules_of_resource(res: &String) {
     BREAKER_RULES.write().unwrap().remove(res);
     CURRENT_RULES.lock().unwrap().remove(res);
-    BREAKER_MAP.write().unwrap().remove(res);
+    // the breakers are dropped (which notifies the listeners) after the map lock has been released
+    let _retired = BREAKER_MAP.write().unwrap().remove(res);
 }
 
 pub fn calculate_reuse_index_for(
@@ -412,21 +421,22 @@ pub fn build_resource_circuit_breaker(
     old_res_cbs: &mut Vec<Arc<dyn CircuitBreakerTrait>>,
 ) -> Vec<Arc<dyn CircuitBreakerTrait>> {
     let mut new_res_cbs = Vec::with_capacity(rules_of_res.len());
+    // The old breakers all stay in `old_res_cbs`: the caller drops them once it has released the manager
+    // locks, because dropping a breaker notifies the listeners. The ones already taken are only left out
+    // of the search for the next rule.
+    let mut candidates: Vec<Arc<dyn CircuitBreakerTrait>> = old_res_cbs.clone();
     for rule in rules_of_res {
         if res != &rule.resource {
             logging::error!("unmatched resource name expect: {}, actual: {}. Unmatched resource name in CircuitBreakerTrait::build_resource_circuit_breaker(), rule: {:?}", res, rule.resource, rule);
             continue;
         }
 
-        let (eq_idx, reuse_stat_idx) = calculate_reuse_index_for(rule, old_res_cbs);
+        let (eq_idx, reuse_stat_idx) = calculate_reuse_index_for(rule, &candidates);
 
         // First check equals scenario
         if eq_idx != usize::MAX {
             // reuse the old cb
-            let eq_old_cb = Arc::clone(&old_res_cbs[eq_idx]);
-            new_res_cbs.push(eq_old_cb);
-            // remove old cb from old_res_cbs
-            old_res_cbs.remove(eq_idx);
+            new_res_cbs.push(candidates.remove(eq_idx));
             continue;
         }
 
@@ -442,7 +452,7 @@ pub fn build_resource_circuit_breaker(
             if reuse_stat_idx != usize::MAX {
                 generator(
                     rule.clone(),
-                    Some(Arc::clone(old_res_cbs[reuse_stat_idx].stat())),
+                    Some(Arc::clone(candidates[reuse_stat_idx].stat())),
                 )
             } else {
                 generator(rule.clone(), None)
@@ -450,8 +460,8 @@ pub fn build_resource_circuit_breaker(
         };
 
         if reuse_stat_idx != usize::MAX {
-            // remove old cb from old_res_tcs
-            old_res_cbs.remove(reuse_stat_idx);
+            // its statistics are taken: not a candidate any more
+            candidates.remove(reuse_stat_idx);
         }
         new_res_cbs.push(cb);
     }
